@@ -3,7 +3,7 @@
 
 use serde::{Deserialize, Serialize};
 use shapefile::dbase;
-use shapefile::{Point, Polyline, Reader, Shape, ShapeReader, ShapeWriter, Writer};
+use shapefile::{Point, PointZ, Polyline, PolylineZ, Reader, Shape, ShapeReader, ShapeWriter, Writer};
 use std::convert::TryInto;
 use std::io::Cursor;
 use vlib::libops::*;
@@ -38,7 +38,8 @@ pub struct HistCase {
     pub reader: u8,
     pub ops: Vec<Op>,
     /// 0 = files as the library writes them; 1 = the same records re-laid out as a foreign producer may: stored in
-    /// reverse physical order with filler bytes between them (the .shx lists them in logical order)
+    /// reverse physical order with filler bytes between them (the .shx lists them in logical order); 2 = records of
+    /// a measured multi-part type (PolylineZ) whose measures are all NO_DATA
     #[serde(default)]
     pub layout: u8,
 }
@@ -51,6 +52,11 @@ fn build_files(n: usize, equal: bool) -> (Vec<u8>, Vec<u8>, Vec<u8>) {
 /// `extra` more points per record: with ~185 points a record is ~3 KB, so three of them cross the 8 KiB buffer
 /// edge of the BufReader used by the path-based readers.
 fn build_files_sized(n: usize, equal: bool, extra: usize) -> (Vec<u8>, Vec<u8>, Vec<u8>) {
+    build_files_kind(n, equal, extra, false)
+}
+
+/// `measured`: PolylineZ records whose measures are all NO_DATA (the documented way to say "no measure").
+fn build_files_kind(n: usize, equal: bool, extra: usize, measured: bool) -> (Vec<u8>, Vec<u8>, Vec<u8>) {
     let mut shp = Cursor::new(Vec::new());
     let mut shx = Cursor::new(Vec::new());
     let mut dbf = Cursor::new(Vec::new());
@@ -63,7 +69,11 @@ fn build_files_sized(n: usize, equal: bool, extra: usize) -> (Vec<u8>, Vec<u8>, 
         for i in 0..n {
             let mut rec = dbase::Record::default();
             rec.insert("idx".to_string(), dbase::FieldValue::Numeric(Some(i as f64)));
-            if equal && extra == 0 {
+            if measured {
+                let npts = if equal { 3 } else { i * 5 + 2 };
+                let pts: Vec<PointZ> = (0..npts).map(|k| PointZ::new(if k == 0 { i as f64 } else { 100.0 + k as f64 }, k as f64, 7.0 + k as f64, shapefile::NO_DATA)).collect();
+                w.write_shape_and_record(&PolylineZ::new(pts), &rec).expect("write");
+            } else if equal && extra == 0 {
                 w.write_shape_and_record(&Point::new(i as f64, 0.5), &rec).expect("write");
             } else {
                 // i + 2 points: pairwise different record sizes (equal sizes when `equal` and big)
@@ -106,6 +116,7 @@ fn ident(s: &Shape) -> Option<usize> {
     match s {
         Shape::Point(p) => Some(p.x as usize),
         Shape::Polyline(p) => Some(p.parts()[0][0].x as usize),
+        Shape::PolylineZ(p) => Some(p.parts()[0][0].x as usize),
         _ => None,
     }
 }
@@ -377,7 +388,16 @@ impl Prop for Histories {
     }
     fn check(c: &HistCase, ctx: &mut Ctx) -> Result<(), Fail> {
         let n = c.n as usize;
-        let (shp, shx, dbf) = if c.reader == 3 || c.reader == 4 { build_files_sized(n, c.equal_sizes, 185) } else { build_files(n, c.equal_sizes) };
+        let (shp, shx, dbf) = if c.layout == 2 {
+            build_files_kind(n, c.equal_sizes, 0, true)
+        } else if c.reader == 3 || c.reader == 4 {
+            build_files_sized(n, c.equal_sizes, 185)
+        } else {
+            build_files(n, c.equal_sizes)
+        };
+        if c.layout == 2 {
+            ctx.class("measured records (PolylineZ, all measures NO_DATA)");
+        }
         let (shp, shx) = if c.layout == 1 { relayout(&shp, &shx) } else { (shp, shx) };
         if c.layout == 1 {
             ctx.class("foreign-layout(reversed, gapped)");
@@ -694,6 +714,12 @@ impl EnumProp for Histories {
                 // records stored in reverse order with gaps, located through the index
                 for l in 1..=len - 1 {
                     blocks.push(Block { n, equal, layout: 1, reader: 1, alphabet: a1.clone(), len: l });
+                }
+                // records of a measured multi-part type
+                for l in 1..=len - 1 {
+                    blocks.push(Block { n, equal, layout: 2, reader: 0, alphabet: a0.clone(), len: l });
+                    blocks.push(Block { n, equal, layout: 2, reader: 1, alphabet: a1.clone(), len: l });
+                    blocks.push(Block { n, equal, layout: 2, reader: 2, alphabet: a2.clone(), len: l + 1 });
                 }
                 // the complete Reader without an index: iterations only
                 for l in 1..=len + 1 {
